@@ -997,12 +997,23 @@ func runUnpackStream(o *Opts) {
 		}
 		if hostile {
 			c.Entries = genHostileEntries(rng)
-			if rng.Chance(15) {
-				// allow-listed locations outside dst: absolute, relative to dst, one or two levels up
-				c.Allow = []string{rng.Pick([]string{"/w/victim", "../victim", "../../shared/", "../shared", "/w/dst-evil/", "../dst-evil"})}
-				depth := rng.Pick([]string{"", "a/", "a/b/"})
+			if rng.Chance(20) {
+				// allow-listed locations outside dst: absolute, relative to dst, one or two levels up;
+				// mostly with a link whose text (read from dst) names the allow-listed place
+				pairs := [][2]string{{"/w/victim", "../victim"}, {"../victim", "../victim"}, {"../../shared/", "../../shared/x"},
+					{"../shared", "../shared/x"}, {"/w/dst-evil/", "../dst-evil/x"}, {"../dst-evil", "../dst-evil"}}
+				pr := pairs[rng.Intn(len(pairs))]
+				c.Allow = []string{pr[0]}
+				depth := rng.Pick([]string{"", "a/", "a/", "a/b/"})
 				up := strings.Repeat("../", strings.Count(depth, "/"))
-				c.Entries = append(c.Entries, EntrySpec{Name: depth + "al", Type: "2", Link: up + rng.Pick([]string{"../victim", "../../shared/x", "../shared/x", "../dst-evil/x", "../dst-evil"}), Mode: 0o777, Mtime: 1000000000})
+				if rng.Chance(40) {
+					up = "" // the same text from a deeper directory: a relative allow-list entry counts from dst, not from the link
+				}
+				tgt := pr[1]
+				if rng.Chance(35) {
+					tgt = rng.Pick([]string{"../victim", "../../shared/x", "../shared/x", "../dst-evil/x", "../dst-evil"})
+				}
+				c.Entries = append(c.Entries, EntrySpec{Name: depth + "al", Type: "2", Link: up + tgt, Mode: 0o777, Mtime: 1000000000})
 			}
 			if c.Reuse && rng.Chance(30) {
 				// a link into the tree the Packer value worked on before
